@@ -1,9 +1,9 @@
 ENGINES = [
- {"name": "evysim-L1", "path": "harness/vdrv", "serves_properties": ["C08", "C14"], "kind_free_text": "deterministic simulation: real lexer/parser/evaluator under a simulated platform (effects, scripted input, virtual clock, numbered fault points), seeded scheduler, explicit JSON scenarios as replay files, ddmin minimiser, worker OS processes"},
+ {"name": "evysim-L1", "path": "harness/vdrv", "serves_properties": ["C08", "C14", "C15"], "kind_free_text": "deterministic simulation: real lexer/parser/evaluator under a simulated platform (effects, scripted input, virtual clock, numbered fault points), seeded scheduler, explicit JSON scenarios as replay files, ddmin minimiser, worker OS processes"},
  {"name": "xform", "path": "xform", "serves_properties": ["C14"], "kind_free_text": "go/packages source rewriter that inserts the seams into a scratch copy of /repo"},
 ]
 NOTES = "Fix commits in /repo: see known_findings.json. Properties whose check is not built yet are listed under not_applicable with reason 'check under construction'."
-PENDING.update({p: "check under construction in this session (claimed in DESIGN.md; will move to checks once its driver is committed)" for p in ["C02", "C15", "C18", "C20"]})
+PENDING.update({p: "check under construction in this session (claimed in DESIGN.md; will move to checks once its driver is committed)" for p in ["C02", "C18", "C20"]})
 claim("C14", "fault_enumeration",
  "For every program of the workload the stop flag is raised inside every fault point of its run (each Yield, Sleep, Read poll and idle moment; exhaustively for runs up to the tier's limit, sampled beyond) and the interrupted run is compared with the uninterrupted one: result is 'stopped', nothing is evaluated and no effect happens after the raise (only the test summary), effects before it are a prefix. Probe programs with statically known trip/call counts decide 'yields at least once per iteration and call'. Sampling over programs, exhaustive over crash points of each sampled program.",
  "The platform raises Stopped only while it has control (Yield, Sleep, blocked Read, idle). SimPlatform is a stub of the browser; the event loop of pkg/wasm is mirrored by the driver at this level.",
@@ -15,3 +15,9 @@ claim("C08", "exploration",
  "Determinism of the harness itself (self-test). Order of EventHandlerNames/CalledBuiltinFuncs is not an observable. Map types whose keys have no canonical order would be 'uncontrolled sites' (none exists today).",
  "deterministic simulation with a map-iteration-order scheduler seam, schedule-independence oracle",
  "DESIGN.md §5.2", "evysim-L1")
+
+claim("C15", "exploration",
+ "Seeded search over event histories: for each (program with handlers, inputs, rand seed) and each history of 0..40 key/down/up/move/animate/input events with payloads from adversarial pools, the run under the simulated event loop is compared with a reference run of the same evaluator on a textually derived program in which every handler is a procedure and one call per event is appended - the property's own definition. Effects, order, payload binding, `_`/parameterless handlers, fresh local scope and shared globals all show in the trace comparison.",
+ "The event loop at this level is the driver's mirror of pkg/wasm handleEvents (one event at a time, registered handlers only). Programs using `test` are excluded; the reference derivation is textual.",
+ "deterministic simulation of event histories against an executable reference model (handlers as procedures)",
+ "DESIGN.md §5.4", "evysim-L1")
